@@ -74,6 +74,25 @@ var specs = map[string]propSpec{
 		},
 		Assumptions: refAssumptions("addr(n) uses child::node()[i] steps (C03 fragment) and @name for attributes (attribute names are unique per element)"),
 	},
+	"C07": {
+		Units: []unitSpec{
+			{Name: "rapid-comparisons", Test: "TestC07Rapid", Rapid: true, QuickChecks: 60000, ThoroughChecks: 700000, QuickShards: 4, ThoroughShards: 16},
+		},
+		Assumptions: refAssumptions("only the operand type pairs the statement lists are generated (number/string and boolean/any comparisons, relational operators on strings are not asserted)"),
+	},
+	"C08": {
+		Units: []unitSpec{
+			{Name: "rapid-arithmetic", Test: "TestC08Rapid", Rapid: true, QuickChecks: 80000, ThoroughChecks: 800000, QuickShards: 4, ThoroughShards: 16},
+		},
+		Assumptions: refAssumptions("both sides perform the same IEEE 754 operations in the same order, so float64 results are compared exactly", "mod only on non-negative integers with a non-zero divisor; sum() only over numeric nodes; round() is not part of the statement"),
+	},
+	"C09": {
+		Units: []unitSpec{
+			{Name: "rapid-string-functions", Test: "TestC09Rapid", Rapid: true, QuickChecks: 80000, ThoroughChecks: 800000, QuickShards: 4, ThoroughShards: 15},
+			{Name: "enum-substring-sweep", Test: "TestC09SubstringSweep", QuickShards: 1, ThoroughShards: 1},
+		},
+		Assumptions: refAssumptions("ASCII strings only; number-typed arguments of concat and friends are not claimed by the statement"),
+	},
 	"C03": {
 		Units: []unitSpec{
 			{Name: "rapid-positional", Test: "TestC03Rapid", Rapid: true, QuickChecks: 50000, ThoroughChecks: 600000, QuickShards: 4, ThoroughShards: 16},
